@@ -109,7 +109,9 @@ package searcher
 //@   loop 2: invariant forall(k, 0, len(s.searchers), implies(old(s.initialized) && old(s.currs[k]) != nil && s.currs[k] != nil, dmKey(s.currs[k]) >= old(dmKey(s.currs[k])))) && forall(k, 0, len(s.searchers), implies(old(s.initialized) && old(s.currs[k]) == nil, s.currs[k] == nil))
 //@   loop 2: invariant 0 <= x && x <= i && i == s.maxIDIdx && i < len(s.currs) && s.currs[i] != nil && idKey(maxID) == dmKey(s.currs[i]) && forall(k, x, i, s.currs[k] != nil && dmKey(s.currs[k]) < idKey(maxID))
 //@   loop 3: invariant rv != nil && s.initialized && conjShape(s) && poolApart(ctx, s) && s.currs == old(s.currs) && s.searchers == old(s.searchers) && s.started == old(s.started) && s.last == old(s.last) && s.done == old(s.done) && implies(s.started, dmKey(rv) > s.last) && s.lbset == old(s.lbset) && s.lb == old(s.lb)
-//@   loop 3: invariant conjMatch(s, dmKey(rv)) && all(x, string, implies(conjTodo(s, x), x >= dmKey(rv))) && all(x, string, implies(conjMatch(s, x) && x > dmKey(rv), forall(k, 0, iter, s.currs[k] != nil && x >= dmKey(s.currs[k]))))
+//@   loop 3: invariant conjMatch(s, dmKey(rv)) && all(x, string, implies(conjTodo(s, x), x >= dmKey(rv)))
+// per bumped child: whatever that child matches beyond the returned id lies at or after its new position
+//@   loop 3: invariant forall(k, 0, iter, all(x, string, implies(mset(s.searchers[k], x) && x > dmKey(rv), s.currs[k] != nil && x >= dmKey(s.currs[k]))))
 //@   loop 3: invariant len(s.searchers) > 0 && forall(k, 0, len(s.searchers), implies(old(s.initialized), old(s.currs[k]) != nil && dmKey(rv) >= old(dmKey(s.currs[k]))))
 //@   loop 3: invariant forall(k, 0, iter, slotOK(s, k) && implies(s.currs[k] != nil, dmKey(s.currs[k]) > dmKey(rv))) && forall(k, iter, len(s.searchers), s.currs[k] != nil && slotOK(s, k) && dmKey(s.currs[k]) == dmKey(rv) && implies(k > 0, s.currs[k] != rv)) && implies(iter == 0, s.currs[0] == rv)
 
